@@ -1,4 +1,5 @@
 import GohbaseVerif.Drive.C16
+import GohbaseVerif.Drive.C17
 /-!
 Line-protocol driver: one test case per line, `<model> <op> <args…>`; one reply per line:
 `OK tags=…` | `DIFF …` (model ≠ implementation) | `SPEC …` (implementation violates the Lean
@@ -9,6 +10,7 @@ open GV
 def dispatch (line : String) : String :=
   match (line.splitOn " ").filter (· ≠ "") with
   | "c16" :: rest => Drive.C16.handle rest
+  | "c17" :: rest => Drive.C17.handle rest
   | _ => "BAD model"
 
 partial def loop (hin hout : IO.FS.Stream) : IO Unit := do
